@@ -333,7 +333,9 @@ static long double unit_of(const Dir &d, const Shape &S, double x)
     return pow10l_(X - (Pg - 1));
 }
 
-static void run_pf(const std::vector<std::string> &w, out &o)
+// `strict` (op pfs): the allowance is ALLOW_BASE ulps for every argument; used by the
+// probes of finding C13-ulp-drift
+static void run_pf(const std::vector<std::string> &w, out &o, bool strict)
 {
     if (w.size() < 3) { o.result = "bad-op"; o.fail("bad op"); return; }
     bytes fb = unhex(w[1]);
@@ -401,7 +403,7 @@ static void run_pf(const std::vector<std::string> &w, out &o)
     long double ax = fabsl((long double)x);
     long double unit = unit_of(d, S, x);
     long double ulp = ulp_of(x);
-    long K = allow_ulps(d, x);
+    long K = strict ? ALLOW_BASE : allow_ulps(d, x);
     long double err = fabsl(parsed - ax);
     // strtold itself rounds to 64 bits: 2^-11 ulp of a double, plus the same for the subtraction
     long double slack = ulp / 512;
@@ -422,9 +424,18 @@ static void run_pf(const std::vector<std::string> &w, out &o)
     if (outs == refs) { o.tag("eq-glibc"); return; }
     // differs from glibc: legitimate only if the unit of the last digit is finer
     // than the ulp allowance, or the argument is within the allowance of a tie
-    long double t = ax / unit;          // position in units of the last digit
-    long double fr = t - floorl(t);     // fine for the magnitudes where unit >> ulp
-    long double dist_tie = fabsl(fr - 0.5L) * unit;
+    // (the unit is taken from igris' text and from glibc's: at a power of ten they differ)
+    auto tie_dist = [&](long double u) {
+        long double t = ax / u;             // position in units of the last digit
+        long double fr = t - floorl(t);     // fine for the magnitudes where unit >> ulp
+        return fabsl(fr - 0.5L) * u;
+    };
+    long double dist_tie = tie_dist(unit);
+    if (refs.size() >= d.pre.size() + d.post.size())
+    {
+        Shape G = check_shape(d, refs.substr(d.pre.size(), refs.size() - d.pre.size() - d.post.size()), x);
+        if (G.ok) dist_tie = std::min(dist_tie, tie_dist(unit_of(d, G, x)));
+    }
     bool fine = unit <= 8 * K * ulp;
     bool near_tie = dist_tie <= K * ulp + slack;
     // %g: the style is chosen from the exponent after rounding (ISO); near a
@@ -581,8 +592,28 @@ struct Gen
         return f;
     }
 
+    // finding C13-g-style-carry: %g whose rounding to P significant digits carries into the
+    // next decade, where that is visible (the style changes at X = P or X = -4, or `#`
+    // keeps the trailing zeros).  Decided with glibc only (no igris code).
+    static bool g_style_carry(const std::string &fmt, double x, const std::vector<long> &star)
+    {
+        Dir d = parse_dir(fmt, star);
+        if (!d.ok || tolower(d.conv) != 'g' || !std::isfinite(x) || x == 0) return false;
+        long P = d.has_prec ? (d.prec == 0 ? 1 : d.prec) : 6;
+        if (P > 400) return false;
+        char b[512];
+        snprintf(b, sizeof b, "%.*e", (int)(P - 1), fabs(x));
+        const char *e = strchr(b, 'e');
+        if (!e || b[0] != '1') return false;
+        for (const char *q = b + 1; q < e; q++) if (*q != '.' && *q != '0') return false;
+        if (!((long double)fabs(x) < strtold(b, 0))) return false;
+        long X = strtol(e + 1, 0, 10);
+        return d.hash || X == P || X == -4;
+    }
+
     void emit_pf(const std::string &fmt, double x, const std::vector<long> &star, const char *probe = 0)
     {
+        if (!probe && g_style_carry(fmt, x, star)) probe = "C13-g-style-carry";
         std::string l = probe ? std::string("@F:") + probe + " " : "";
         l += "pf " + hex(fmt) + " " + hexn(bits_of(x), 16);
         for (long s : star) l += " " + std::to_string(s);
@@ -609,6 +640,12 @@ static void gen(rng &R, const std::string &tier)
     bool thorough = tier == "thorough";
     Gen G(R);
     G.init();
+    // ---- probes of the recorded findings (expected to FAIL the oracle)
+    puts("@F:C13-g-style-carry pf 2567 412e847f00000000");   // %g 999999.5 -> 1000000 (ISO 1e+06)
+    puts("@F:C13-g-style-carry pf 2567 3f1a36e2d51ec34b");   // %g 0.000099999995 -> 1e-04 (ISO 0.0001)
+    puts("@F:C13-g-style-carry pf 252e3167 4023000000000000"); // %.1g 9.5 -> 10 (ISO 1e+01)
+    puts("@F:C13-ulp-drift pfs 252e313765 6fbf7bc0388d6e12");  // %.17e 1.9093183950992952e+230
+    puts("@F:C13-ulp-drift pfs 252e323545 f9993cee194f1223");  // %.25E -5.59e+277
     // ---- arithmetic primitives (software binary64 of the model vs the FPU / libm)
     for (int n = 0; n <= 345; n++) printf("ar pow 10 %d\n", n);
     {
@@ -673,7 +710,8 @@ static void gen(rng &R, const std::string &tier)
 static void run(const std::vector<std::string> &w, const std::string &, out &o)
 {
     if (w.empty()) { o.result = "bad-op"; o.fail("empty"); return; }
-    if (w[0] == "pf") run_pf(w, o);
+    if (w[0] == "pf") run_pf(w, o, false);
+    else if (w[0] == "pfs") run_pf(w, o, true);
     else if (w[0] == "ar") run_ar(w, o);
     else { o.result = "bad-op"; o.fail("bad op"); }
 }
